@@ -178,10 +178,17 @@ def run_c18(ctx):
                    "length 5 with a 5-byte limit: {00,01,7f,80,ff}^4 x all 256 top bytes", "integers: every n in [-2^16, 2^16], +-2^k+d for k<63, |d|<=3, INT64 extremes",
                    "per string: decode value, minimality verdict (constructor with fRequireMinimal), re-encode; per integer: serialize, round trip, Value(int).hex_str(), decimal literal, Value(0x..).int_value()"],
         "byte_strings": r["strings"], "of_which_minimal": r["minimal_strings"], "integers": r["integers"],
+        "locktime_operand_sessions": r.get("locktime_operand_sessions", 0),
     }
+    cov["bounds"].append("lock-time operands: every string of length 0..1 and {00,01,7f,80,ff}^k x all 256 top bytes for k = 1..4 (lengths 2..5), plus a 6-byte string, "
+                         "as the operand of OP_CHECKLOCKTIMEVERIFY and of OP_CHECKSEQUENCEVERIFY through the interpreter, with and without MINIMALDATA (outcome and stack vs the reference)")
+    cov["states"] += cov["locktime_operand_sessions"]
+    cov["transitions"] += 3 * cov["locktime_operand_sessions"]
+    cov["traces_validated_against_impl"] += cov["locktime_operand_sessions"]
     return dict(level="model_checking", coverage=cov, violations=r["violations"],
-                assumptions=["oracle: arithmetic definition of the sign-magnitude little-endian codec in ref/refnum.hpp"],
-                summary="%d strings, %d integers" % (r["strings"], r["integers"]))
+                assumptions=["oracle: arithmetic definition of the sign-magnitude little-endian codec in ref/refnum.hpp",
+                             "lock-time operand path: reference interpreter (ref/refscript.hpp) without a transaction - decoding is observed through the error class"],
+                summary="%d strings, %d integers, %d lock-time operand sessions" % (r["strings"], r["integers"], cov["locktime_operand_sessions"]))
 
 
 # ------------------------------------------------------------------------------------------- C03 / C05
